@@ -11,6 +11,7 @@ from .interp import Stats
 CONFIGS = {
     # name: (uid(i), nref(i), check_uids, other)
     'plain': dict(uid=lambda i: False, nref=lambda i: 0, check_uids=False, other=True),
+    'plain_overlap': dict(uid=lambda i: False, nref=lambda i: 0, check_uids=False, other=True, multi_overlap=True),
     'refs': dict(uid=lambda i: False, nref=lambda i: 1, check_uids=False, other=False),
     'refs2': dict(uid=lambda i: False, nref=lambda i: 2 if i == 1 else 1, check_uids=False, other=False),
     'uids': dict(uid=lambda i: True, nref=lambda i: 0, check_uids=True, other=False),
